@@ -15,3 +15,5 @@ print("proved", len(out), "failed", len(s["failed"]), "undecided", len(s["undeci
 for n, o, r in s["failed"]: print("FAILED", n)
 for u in s["undecided"]: print("UNDECIDED", u[0], str(u[1])[:200])
 json.dump(out, open(os.path.join(os.path.dirname(os.path.dirname(os.path.abspath(__file__))), "baseline_obligations.json"), "w"), indent=0, sort_keys=True)
+from pcv import config, rewrite
+json.dump(rewrite.library_signatures(config.REPO), open(os.path.join(os.path.dirname(os.path.dirname(os.path.abspath(__file__))), "baseline_signatures.json"), "w"), indent=0, sort_keys=True)
